@@ -400,6 +400,18 @@ func run(r *mon.Run) {
 			}
 		}
 	}
+	// response header maps whose :status is not three digits (a reason phrase after them, more digits than an integer
+	// holds, signs, blanks, other scripts' digits) and header names / values of odd shapes, in otherwise valid bundles
+	for _, ver := range []string{"b1", "b2"} {
+		for si, st := range []string{"200", "200 ", "200x", "200 OKAY", "200\n", "200.0", "2000", "2000x", "200\x00", "999999999999999999999", "200200200200200200200200", "+20", "-07", "0x1", "1e2", "", " ", "\uff12\uff10\uff10", "20", "2", "0b1", "0_1"} {
+			sp := &rbundle.BSpec{Version: ver, Exchanges: []rbundle.BExchange{{URL: "https://example.com/x", Status: st, Headers: []rbundle.BHeader{{Name: "content-type", Value: "text/plain"}}, Body: []byte("body")}}}
+			if ver == "b1" {
+				sp.Primary = "https://example.com/x"
+			}
+			x, _ := sp.Build(nil)
+			readBundle(fmt.Sprintf("status-spelling/%s/%d", ver, si), x)
+		}
+	}
 	// fields that agree with each other about bytes the input does not have: responses-section length + last index
 	// length + last body length enlarged by the same k (beyond the read buffer's spare capacity too), alone and in files
 	// that carry an unknown section of U bytes at every position
